@@ -317,12 +317,21 @@ fn parse_cron_part(
             if start.is_empty() {
                 return Err("Can't find start number of range".to_string());
             }
-            let start = parse_value(start, cron_type)?;
+            let start = parse_range_value(start, cron_type)?;
             let end = range_parts.next().unwrap_or_default();
             if end.is_empty() {
                 return Err("Can't find end number of range".to_string());
             }
-            let end = parse_value(end, cron_type)?;
+            let end = parse_range_value(end, cron_type)?;
+            if range_parts.next().is_some() {
+                return Err("A range consists of a start and an end number only".to_string());
+            }
+            // In a day of week range, 7 is the Sunday after Saturday
+            let max = if cron_type == &CronPartType::DayOfWeek {
+                7
+            } else {
+                max
+            };
 
             if start > end {
                 return Err(
@@ -337,7 +346,13 @@ fn parse_cron_part(
                 ));
             }
 
-            values.extend(start..=end);
+            values.extend((start..=end).map(|value| {
+                if cron_type == &CronPartType::DayOfWeek {
+                    value % 7
+                } else {
+                    value
+                }
+            }));
         } else {
             let value = parse_value(part, cron_type)?;
 
@@ -370,6 +385,14 @@ fn parse_value(value: &str, cron_type: &CronPartType) -> Result<u8, String> {
             .parse::<u8>()
             .map_err(|_| format!("Can't parse value to u8: {}", value))?,
     })
+}
+
+/// Parses the start or end of a range. Unlike a single value, a day of week 7 stays 7 (the Sunday after Saturday)
+fn parse_range_value(value: &str, cron_type: &CronPartType) -> Result<u8, String> {
+    if cron_type == &CronPartType::DayOfWeek && value == "7" {
+        return Ok(7);
+    }
+    parse_value(value, cron_type)
 }
 
 fn is_numeric_part(part: &str) -> bool {
